@@ -205,9 +205,12 @@ def run_campaign(cp, workdir, engines=("large", "fast"), nshards=NCPU, maxsteps=
             cmd = tlc_cmd("Trace_Step.tla", cfgp, md)
             cmd[cmd.index("-config") + 1] = cfgp
             jobs.append(("step", si, eng, cmd, {"CHARTS": charts_file, "TRACE": tr}))
-            jobs.append(("monitor", si, eng,
-                         tlc_cmd("Trace_Monitor.tla", "Trace_Monitor.cfg", os.path.join(workdir, "meta.s%02d.%s.mon" % (si, eng))),
-                         {"TRACE": tr + ".raw"}))
+            if eng == engines[0]:
+                # the raw callback stream of the second engine is compared line by line with the
+                # first one's by Lockstep; it is validated on its own only where they differ (below)
+                jobs.append(("monitor", si, eng,
+                             tlc_cmd("Trace_Monitor.tla", "Trace_Monitor.cfg", os.path.join(workdir, "meta.s%02d.%s.mon" % (si, eng))),
+                             {"TRACE": tr + ".raw"}))
         if len(engines) == 2:
             for suffix, kind in (("", "lock"), (".raw", "lockraw")):
                 a = os.path.join(workdir, "s%02d.%s.ndjson%s" % (si, engines[0], suffix))
@@ -238,6 +241,30 @@ def run_campaign(cp, workdir, engines=("large", "fast"), nshards=NCPU, maxsteps=
                 v["why"] = "raw:" + v["why"]
             verdicts.append(v)
         shutil.rmtree(j[3][j[3].index("-metadir") + 1], ignore_errors=True)
+    # raw streams of the second engine where Lockstep found them different from the first engine's
+    if len(engines) == 2:
+        diff_cases = set(v["case"] for v in verdicts if v.get("judge") == "lockraw")
+        if diff_cases:
+            sub = os.path.join(workdir, "mon.%s.diff.raw" % engines[1])
+            with open(sub, "w") as outf:
+                for si in range(len(shards)):
+                    keep = False
+                    with open(os.path.join(workdir, "s%02d.%s.ndjson.raw" % (si, engines[1]))) as f:
+                        for line in f:
+                            if line.startswith('{"k":"reset"'):
+                                keep = json.loads(line)["case"] in diff_cases
+                            if keep:
+                                outf.write(line)
+            md = os.path.join(workdir, "meta.mon.diff")
+            (rc, out), = run_parallel([tlc_cmd("Trace_Monitor.tla", "Trace_Monitor.cfg", md)], env={"TRACE": sub}, timeout=3000)
+            p = parse_tlc(out)
+            states += p["distinct"]
+            if not (p["ok"] and p["error"] is None):
+                failures.append({"job": "monitor-diff", "shard": -1, "exec": engines[1], "rc": rc, "tail": out[-1500:]})
+            for v in p["verdicts"]:
+                v["judge"] = "monitor"
+                verdicts.append(v)
+            shutil.rmtree(md, ignore_errors=True)
     # statistics straight from the recorded files
     ncalls = 0
     for si in range(len(shards)):
@@ -286,7 +313,7 @@ def rejudge(workdir, engine, case_ids, variants, tag):
     if not p["ok"] or p["error"]:
         raise RuntimeError("rejudge failed: " + out[-1500:])
     os.remove(sub)
-    return set(v["case"] for v in p["verdicts"] if v["property"] == "C01"), p
+    return set(v["case"] for v in p["verdicts"] if v["property"] in ("C01", "C04", "C06")), p
 
 
 # variant sets under which a run is still a behaviour the Recommendation allows
@@ -295,10 +322,10 @@ AMBIGUITY_SETS = [("A1prose",), ("A4doc",), ("A1prose", "A4doc")]
 STATIC_SETS = [("static",), ("static", "A1prose"), ("static", "A4doc"), ("static", "A1prose", "A4doc")]
 
 
-def classify_c01(result, engine):
-    """C01 verdicts of one engine -> (unexplained, ambiguous, static) lists of verdicts"""
+def classify_c01(result, engine, prop="C01"):
+    """behavioural verdicts of one executor -> (unexplained, ambiguous, static) lists of verdicts"""
     workdir = result["workdir"]
-    vs = [v for v in result["verdicts"] if v["property"] == "C01" and v["exec"] == engine]
+    vs = [v for v in result["verdicts"] if v["property"] == prop and v["exec"] == engine]
     open_ids = set(v["case"] for v in vs)
     explained = {}
     for sets, label in ((AMBIGUITY_SETS, "ambiguity"), (STATIC_SETS, "static")):
